@@ -124,6 +124,11 @@ class QuicStreamReceiver:
         # we are done receiving
         self._final_size = final_size
         self.is_finished = True
+
+        # The final size was charged against the flow control limits: remember
+        # it, so that a repeated RESET_STREAM is not charged again.
+        if final_size > self.highest_offset:
+            self.highest_offset = final_size
         return events.StreamReset(error_code=error_code, stream_id=self._stream_id)
 
     def on_stop_sending_delivery(self, delivery: QuicDeliveryState) -> None:
